@@ -330,6 +330,7 @@ def gen(args) -> list:
     flags = {id(c): culture_flags(c) for c in cults}
     seps = {id(c): culture_seps(c) for c in cults}
     evs = []
+    p_single: dict = {}
     for _ in range(npat):
         typ = rnd.choice(TYPES)
         culture = rnd.choice(cults)
@@ -501,6 +502,51 @@ def gen(args) -> list:
             except Exception as e:  # noqa: BLE001
                 ev["exc"] = type(e).__name__
             evs.append(ev)
+            # spliced texts: the same pattern's text with one or two fields taken from ANOTHER value's text (each field rendered on
+            # its own by a single-token pattern).  Such a text need not come from any value (an hour of 03 with the designator of
+            # the afternoon): whenever it parses all the same, re-formatting what it parsed to must give it back
+            if ev.get("exact_tokens") and "text" in ev and "exc" not in ev and len(tokens) >= 2 and rnd.random() < 0.35 \
+                    and "".join(tokens) == pname and not any(t in ("MMM", "MMMM") for t in tokens):
+                try:
+                    v2 = fit_value(typ, tokens, textgen.random_value(typ, rnd, cals, 0.08), pat, rnd)
+                    if typ in ("LocalDate", "LocalDateTime"):
+                        v2 = v2.with_calendar(v.calendar)
+                    which = set(rnd.sample(range(len(tokens)), rnd.choice([1, 1, 2])))
+                    parts_txt = []
+                    for i, tk in enumerate(tokens):
+                        if tk in _LIT_TEXT:
+                            parts_txt.append(_LIT_TEXT[tk] if not (typ in ("Offset", "Duration") and tk == "-") else None)
+                        elif tk == ":":
+                            parts_txt.append("".join(chr(c) for c in ev["time_sep"]) if typ in ("LocalTime", "LocalDateTime", "Instant", "Offset", "Duration") else ":")
+                        elif tk == "/":
+                            parts_txt.append("".join(chr(c) for c in ev["date_sep"]) if typ in ("LocalDate", "LocalDateTime", "Instant", "AnnualDate") else "/")
+                        else:
+                            parts_txt.append(None)
+                        if parts_txt[-1] is None:
+                            single = p_single.get((typ, tk, id(culture), v.calendar.id if typ in ("LocalDate", "LocalDateTime") else ""))
+                            if single is None:
+                                single = textgen.create(typ, tk if len(tk) > 1 else "%" + tk, culture)
+                                if typ in ("LocalDate", "LocalDateTime"):
+                                    single = single.with_calendar(v.calendar)
+                                p_single[(typ, tk, id(culture), v.calendar.id if typ in ("LocalDate", "LocalDateTime") else "")] = single
+                            parts_txt[-1] = single.format(v2 if i in which else v)
+                    hybrid = "".join(parts_txt)
+                    whole = "".join(chr(c) for c in ev["text"])
+                    # (the per-token renderings of the value itself must add up to the pattern's own text, else no claim is made)
+                    own = []
+                    if hybrid != whole:
+                        ev3 = {k2: v3 for k2, v3 in ev.items() if k2 not in ("again", "parsed", "parsed_ok", "reformat", "text", "names", "dow")}
+                        ev3.update(spliced=True, text=cps(hybrid))
+                        r = p.parse(hybrid)
+                        ev3["parsed_ok"] = bool(r.success)
+                        if r.success:
+                            ev3["parsed"] = fields(typ, r.value)
+                            if "yymax" in ev3["parsed"]:
+                                ev3["parsed"]["yymax"] = yymax
+                            ev3["reformat"] = cps(p.format(r.value))
+                        evs.append(ev3)
+                except Exception:  # noqa: BLE001 - a token that is no pattern on its own, a value the route cannot make: no spliced text
+                    pass
     return evs
 
 
@@ -514,9 +560,13 @@ _REF_VOCAB = {
 }
 
 
+_LIT_TEXT = {" ": " ", "-": "-", ",": ",", ".": ".", "'at'": "at", "\\h": "h", "'T'": "T", "'of'": "of", "'.'": ".", "\\.": ".", "'d'": "d", "'x'": "x",
+             "\\:": ":", "\\d": "d"}
+
+
 def reference_text_applies(ev) -> bool:
     """Mirror of Trace_Text!Predictable, for the evidence counts only (the spec decides)."""
-    if not ev.get("exact_tokens") or "text" not in ev or "am" not in ev:
+    if not ev.get("exact_tokens") or "text" not in ev or "am" not in ev or ev.get("spliced"):
         return False
     return set(ev["tokens"]) <= _REF_VOCAB.get(ev["type"], _REF_VOCAB["fields"] | (_REF_VOCAB["names"] if "names" in ev else set()))
 
@@ -535,6 +585,8 @@ def run(ctx: Ctx):
         for e in p:
             ctx.notes["events_by_type"][e["type"]] = ctx.notes["events_by_type"].get(e["type"], 0) + 1
     ctx.distinct_nontrivial = len(pats)
+    ctx.notes["spliced_texts"] = sum(1 for p in parts for e in p if e.get("spliced"))
+    ctx.notes["spliced_texts_that_parsed"] = sum(1 for p in parts for e in p if e.get("spliced") and e.get("parsed_ok"))
     ctx.notes["texts_compared_with_the_reference_formatter"] = {}
     for p in parts:
         for e in p:
@@ -564,7 +616,7 @@ def run(ctx: Ctx):
     import subprocess as _sp
     import sys as _sys
 
-    cand = [e for p in parts for e in p if e["type"] == "LocalDate" and not e["roundtrip_builtin"] and "text" in e and e["value"].get("cal") == "ISO"
+    cand = [e for p in parts for e in p if e["type"] == "LocalDate" and not e["roundtrip_builtin"] and "text" in e and not e.get("spliced") and e["value"].get("cal") == "ISO"
             and "yymax" in e["value"] and e["value"]["yymax"] == 30]
     rnd2 = random.Random(ctx.seed + 77)
     cand = rnd2.sample(cand, min(len(cand), 400 if q else 4000))
